@@ -47,6 +47,11 @@ func (p *Program) verifyFuncWith(key string, forceSafety bool, extraTags []strin
 	f.top = true
 	ct := f.contract
 	if ct != nil {
+		for _, r := range ct.Requires {
+			if strings.Contains(r.Text, "held(") {
+				vc.locksAtEntry = true
+			}
+		}
 		ct.Used = true
 		f.safety = ct.Safety && !ct.NoSafety
 		f.tags = append([]string{}, ct.Tags...)
@@ -143,6 +148,11 @@ func (p *Program) verifyFuncWith(key string, forceSafety bool, extraTags []strin
 	}
 	env.acq = f.lastAcq
 	for _, en := range append(append([]*Clause{}, ct.Ensures...), ct.AtRelease...) {
+		if strings.HasPrefix(en.Label, "TRUSTED") {
+			// assumed at call sites, not proved here (naming of a deterministic library/registry result)
+			vc.trust(fmt.Sprintf("assumed postcondition %s#%s: %s", key, en.Label, en.Text))
+			continue
+		}
 		t, err := env.evalBool(en.Expr)
 		if err != nil {
 			vc.unbound = append(vc.unbound, fmt.Sprintf("%s: ensures %s: %v", key, en.Label, err))
